@@ -41,7 +41,9 @@ Definition api (ask : string -> list val -> val) : list api_entry :=
   let hmac256 := o_hmac_sha256 ask in
   let pbkdf2 := o_pbkdf2_sha512 ask in
   let sha512 := o_sha512 ask in
-  let kh_der := Bip32Kholaw.kh_derivator pt e_mul e_base e_is_zero e_enc in
+  (* the Khovratovich-Law derivator as the property demands it (Model/C14b.v): equal to Bip32Kholaw.kh_derivator on every
+     parent key with kL + 2^227 <= 2^256, Bip32KeyError where that one overflows *)
+  let kh_der := C14b.kh_derivator_conformant pt e_mul e_base e_is_zero e_enc in
   let by_der := ByronLegacyDeriv.by_derivator pt e_mul e_base e_is_zero e_enc in
   (* scheme 0 Bip32KholawEd25519, 1 CardanoIcarusBip32, 2 CardanoByronLegacyBip32 *)
   let kh_start (scheme : N) (seed : list N) : res Bip32Kholaw.node :=
@@ -99,6 +101,13 @@ Definition api (ask : string -> list val -> val) : list api_entry :=
       rmap Api_cardmon.vnode
         (C14b.kh_from_seed_and_path_str hmac512 pt e_add e_mul e_base e_is_zero e_enc e_dec (der_of scheme)
            (kh_start scheme) seed s) | _ => bad_call end);
+  (* <Kholaw class>.FromPrivateKey / FromPublicKey / FromExtendedKey (key material [public?; key; chain code; depth]) followed
+     by ChildKey(i): scheme 0/1 Khovratovich-Law derivator, 2 Byron legacy *)
+  ("kh_key_child", fun a => match a with [VN scheme; VN pub; VB key; VB cc; VN depth; VZ i] =>
+      rmap Api_cardmon.vnode
+        (n <- (if N.eqb pub 0 then Bip32Kholaw.node_from_priv pt e_mul e_base e_is_zero e_enc key cc depth
+               else Bip32Kholaw.node_from_pub pt e_dec key cc depth) ;;
+         Bip32Kholaw.child_key hmac512 pt e_add e_mul e_base e_is_zero e_enc e_dec (der_of scheme) n i) | _ => bad_call end);
   (* AdaByronAddrDecoder.DecryptHdPath(enc, key) *)
   ("byron_decrypt_path", fun a => match a with [VB key; VB enc] =>
       rmap (fun l => VL (map v_item l)) (C14b.byron_decrypt_path chacha_dec key enc) | _ => bad_call end);
